@@ -812,6 +812,52 @@ impl<'a> Wire<'a> {
         }
     }
 
+    /// EXHAUSTIVE SMALL INPUTS: every byte string up to `max_len` over an alphabet of the bytes that matter to a decoder
+    /// (0, small lengths / alignments, a letter, a type code, 0xff), under a set of small types, both byte orders, start
+    /// offsets 0 and 1: the three decoders against the model and among themselves. Whatever a decoder gets wrong on an input
+    /// this short is found with certainty.
+    pub fn run_exhaustive_small(&mut self, max_len: usize) {
+        let alphabet: [u8; 8] = [0x00, 0x01, 0x02, 0x04, 0x08, 0x61, 0x79, 0xff];
+        let types: Vec<Ty> = ["y", "b", "n", "u", "s", "g", "o", "ay", "ab", "an", "as", "v", "(yu)", "(yn)", "a{ys}", "a(yn)"]
+            .iter()
+            .map(|t| Ty::parse(t).unwrap())
+            .collect();
+        let mut idx: Vec<usize> = vec![];
+        let mut count = 0u64;
+        loop {
+            let bytes: Vec<u8> = idx.iter().map(|i| alphabet[*i]).collect();
+            for ty in &types {
+                for bo in ORDERS {
+                    // offset 0, and offset 1 behind one byte (another alignment phase)
+                    self.dec_case(bo, 0, ty, &bytes, None, true);
+                    if !bytes.is_empty() {
+                        self.dec_case(bo, 1, ty, &bytes, None, true);
+                    }
+                    count += 2;
+                }
+            }
+            let mut i = idx.len();
+            loop {
+                if i == 0 {
+                    idx = vec![0; idx.len() + 1];
+                    break;
+                }
+                i -= 1;
+                if idx[i] + 1 < alphabet.len() {
+                    idx[i] += 1;
+                    for j in i + 1..idx.len() {
+                        idx[j] = 0;
+                    }
+                    break;
+                }
+            }
+            if idx.len() > max_len {
+                break;
+            }
+        }
+        self.out.hit_n("exhaustive_small_cases", count);
+    }
+
     pub fn run_random_bytes(&mut self, n: usize) {
         for _ in 0..n {
             let d = self.rng.range(0, 3) as usize;
@@ -913,13 +959,14 @@ pub fn run(cfg: &Cfg, mode: Mode) {
             w.run_bad_strings();
             w.run_corruptions(if cfg.thorough { 600 } else { 160 });
             w.run_random_bytes(if cfg.thorough { 300_000 } else { 20_000 });
+            w.run_exhaustive_small(if cfg.thorough { 5 } else { 4 });
         }
     }
     out.extra("catalogue_types", crate::catalogue::N_TYPES.to_string());
     let rule = match mode {
         Mode::C01 => "every catalogue type x generated values x {LE,BE} x 8 start offsets: marshal (w.enc), typed+param+validate decode of the bytes followed by a sentinel (w.dec), whole-body round trip with `phase` byte parameters before and a u32 after (w.body); plus random Param trees; distinct by request text; non-trivial = container type, or padding needed, or more than 8 bytes",
         Mode::C02 => "every catalogue type x generated values x {LE,BE} x 8 start offsets marshalled into a pre-filled context and compared byte for byte with the model's encoding; random Param trees (depth up to the bound) through marshal_param; distinct by request text; non-trivial as for C01",
-        Mode::C03 => "valid encodings (catalogue + random Param trees) decoded by validate_raw, Param unmarshal and typed unmarshal; single-byte corruptions (+1, -1, +4, -4, ^0x80, :=0, :=0xFF, truncate at every position; an evenly spread sample when over the per-message cap) of pooled encodings up to 96 bytes; containers with 65..80 elements; the same bytes under the other byte order; random byte strings under random signatures; distinct by request text",
+        Mode::C03 => "valid encodings (catalogue + random Param trees) decoded by validate_raw, Param unmarshal and typed unmarshal; single-byte corruptions (+1, -1, +4, -4, ^0x80, :=0, :=0xFF, truncate at every position; an evenly spread sample when over the per-message cap) of pooled encodings up to 96 bytes; containers with 65..80 elements; the same bytes under the other byte order; random byte strings under random signatures; EVERY byte string up to length 4 (thorough: 5) over an 8-byte alphabet under 16 small types, both byte orders, offsets 0 and 1 (exhaustive); distinct by request text",
     };
     out.finish(rule, false);
 }
